@@ -6,6 +6,7 @@ From GoldV Require Import Base.
 Definition s2l (s : string) : str :=
   map (fun a => N.of_nat (nat_of_ascii a)) (list_ascii_of_string s).
 
+Definition S_Annotation_is_not_closed : str := Eval vm_compute in s2l "Annotation is not closed".
 Definition S_Cannot_parse_constant_decl : str := Eval vm_compute in s2l "Cannot parse constant decl: ".
 Definition S_Empty_list : str := Eval vm_compute in s2l "Empty list".
 Definition S_Failed_parsing_parameter_decl : str := Eval vm_compute in s2l "Failed parsing parameter decl: ".
